@@ -262,6 +262,7 @@ class H2Server(TimerMixin, Peer):
         self.cur_sid = 0
         self.refused = set()
         self.early = set()         # streams whose response head went out before the request ended
+        self.fc_sent = 0           # flow-controlled bytes of response DATA sent (incl. padding)
         self.close_when_drained = False
 
     TRACKED = ("max_concurrent_streams", "initial_window_size", "max_frame_size")
@@ -709,8 +710,10 @@ class H2Server(TimerMixin, Peer):
                     pad = plan.get("h2_pad", 0)
                     if pad and k + pad + 1 <= min(win, self.c.max_outbound_frame_size):
                         self.c.send_data(sid, body[p["pos"]:p["pos"] + k], pad_length=pad)
+                        self.fc_sent += k + pad + 1
                     else:
                         self.c.send_data(sid, body[p["pos"]:p["pos"] + k])
+                        self.fc_sent += k
                     p["pos"] += k
                     rem -= k
                     burst -= 1
